@@ -560,7 +560,19 @@ func VerifC06RecoveryApply() {
 			best = c
 		}
 	}
+	// completeness: what the node ends up with is the newest operation among its own and the peers', also when
+	// that operation's version lies below the node's high-water mark (versions are per-leaseholder counters; the
+	// mark is one number over all leaseholders)
+	bestAll := local
+	for _, c := range []*Operation{&p1, &p2} {
+		if bestAll == nil || verifHSupersedes(*c, *bestAll) {
+			bestAll = c
+		}
+	}
 	dig, err := getDigestFromKV(ctx, kv, k)
+	verifAssertKnown("recovery-brings-the-newest-operation-the-peers-hold",
+		err == nil && dig.Version == bestAll.Version && dig.Leaseholder == bestAll.Leaseholder,
+		"C06-recovery-scalar-high-water", bestAll != best)
 	if best == nil {
 		verifAssert("nothing-recovered", err != nil)
 	} else {
